@@ -287,6 +287,7 @@ class Observer:
             dm = m.daemons_memory
             return {
                 "noticed_by_listing": m.noticed_by_listing, "fully_handled_once": m.fully_handled_once,
+                "resumed_handlers": sorted(map(str, getattr(m, "resumed_handlers", ()) or ())),
                 "remaining_patch": None if m.remaining_patch is None else
                 {"fields": _jsonable(dict(m.remaining_patch)), "fns": len(m.remaining_patch.fns)},
                 "forever_stopped": sorted(map(str, dm.forever_stopped)),
@@ -406,6 +407,10 @@ def installed(obs: Observer) -> Iterator[None]:
         storage = settings.persistence.progress_storage
         owned = [h for h in registry._changing.get_resource_handlers(resource=cause.resource)]
         selected = [h for h in registry._changing.get_handlers(cause=cause)]
+        # /repo 6c4463d: resuming handlers that already reached a final outcome for this object in this
+        # process (in-memory `resumed_handlers`) are not selected again while the cycle is open
+        resumed = set(getattr(kw.get("memory"), "resumed_handlers", ()) or ())
+        selected = [h for h in selected if not (getattr(h, "initial", None) and h.id in resumed)]
         P = _fetch_all(storage, cause.body, [h.id for h in owned])
         subs = sorted({s for r in P.values() if r for s in r.get("subrefs", [])})
         P.update(_fetch_all(storage, cause.body, subs))
